@@ -335,6 +335,9 @@ func prepareGen(spec *Spec, flavours []string, genSeed uint64, genN int) *built 
 			infra("build of %s failed: %v\n%s", pkg, err, out)
 		}
 		b.env = append(b.env, envName+"="+bin)
+		gd := filepath.Join(work, "golden")
+		os.MkdirAll(gd, 0755)
+		b.env = append(b.env, "VERIF_C06_GOLDEN="+gd)
 	}
 	b.buildS = time.Since(start).Seconds()
 	return b
